@@ -10,7 +10,9 @@ import (
 // brokered listener, every credential class.
 func TestC12(t *testing.T) {
 	base := scratch(t)
-	creds := []string{"plain", "tls-nocert", "tls-selfsigned", "tls-samename"}
+	creds := []string{"plain", "tls-nocert", "tls-selfsigned", "tls-samename", "tls-systrusted"}
+	// a certificate listed in the machine's trust store (SSL_CERT_FILE of the host and of the plugins it launches)
+	trustCert, trustKey := genCert(t)
 	var cells []Cell
 	for _, proto := range []string{"netrpc", "grpc"} {
 		for _, mux := range []bool{false, true} {
@@ -18,7 +20,7 @@ func TestC12(t *testing.T) {
 				continue
 			}
 			for _, auto := range []bool{true, false} {
-				ops := []string{"new", "start", "client", "dispense", "set:5", "callback", "revcallback"}
+				ops := []string{"systrust?", "new", "start", "client", "dispense", "set:5", "callback", "revcallback"}
 				for _, c := range creds {
 					ops = append(ops, "intrude:"+c)
 				}
@@ -30,7 +32,7 @@ func TestC12(t *testing.T) {
 				cells = append(cells, Cell{
 					Name:   fmt.Sprintf("%s mux=%v AutoMTLS=%v", proto, mux, auto),
 					Plugin: PluginConf{CookieKey: cookieKey, CookieValue: cookieVal, Legacy: 1, LegacyProto: proto, GRPCServer: true, TLS: "none"},
-					Host:   HostConf{Allowed: []string{"netrpc", "grpc"}, TLS: tls, Mux: mux, Launch: "cmd", Legacy: 1, SkipHostEnv: true},
+					Host:   HostConf{Allowed: []string{"netrpc", "grpc"}, TLS: tls, Mux: mux, Launch: "cmd", Legacy: 1, SkipHostEnv: true, SysTrustCert: trustCert, SysTrustKey: trustKey},
 					Ops:    ops,
 				})
 			}
@@ -46,7 +48,7 @@ func TestC12(t *testing.T) {
 			cells = append(cells, Cell{
 				Name:   fmt.Sprintf("impostor %s second-plugin=%s", proto, mode),
 				Plugin: PluginConf{CookieKey: cookieKey, CookieValue: cookieVal, Legacy: 1, LegacyProto: proto, GRPCServer: true, TLS: "none", CertPEM: sibCert, KeyPEM: sibKey, Impostor: "legit"},
-				Host:   HostConf{Allowed: []string{"netrpc", "grpc"}, TLS: "auto", Launch: "cmd", Legacy: 1, SkipHostEnv: true},
+				Host:   HostConf{Allowed: []string{"netrpc", "grpc"}, TLS: "auto", Launch: "cmd", Legacy: 1, SkipHostEnv: true, SysTrustCert: sibCert, SysTrustKey: sibKey},
 				Ops:    []string{"new", "start", "client", "dispense", "set:5", "get", "newimp:" + mode, "start", "client", "dispense", "set:6", "get", "ping", "kill:1", "kill:0"},
 			})
 		}
@@ -98,6 +100,12 @@ func TestC12(t *testing.T) {
 			continue
 		}
 		for _, o := range r.Ops {
+			if o.Op == "systrust?" {
+				if o.Val != "listed" {
+					bad("control: the cell's trust store does not list the system-trusted certificate (intruder class tls-systrusted is vacuous)")
+				}
+				continue
+			}
 			if !strings.HasPrefix(o.Op, "intrude:") {
 				if o.Err != "" {
 					bad("legitimate session disturbed: %s failed: %s", o.Op, o.Err)
